@@ -120,7 +120,19 @@ def _breadthdist(prog, rep):
     gs = _stmts(g.node)
     want = ['distance[v] = distance[u] + 1', 'branch[v] = u', 'color[v] = gray', 'Q.append(v)']
     wb = [s for s in gs if isinstance(s, ast.If) and gm.match(s.test, 'color[v] == white')]
-    okw = len(wb) == 1 and sorted(norm(s) for s in wb[0].body) == sorted(want)
+    got = sorted(norm(s) for s in wb[0].body) if len(wb) == 1 else []
+    if len(wb) == 1:
+        # `nd = distance[u] + 1` named at the top of the same iteration over v: the only write to `distance` before the white test is
+        # `distance[v] = nd` under `distance[v] == 0`, which touches distance[u] only when v is u -- and u, taken from the queue, is not white
+        pmg = ParentMap(g.node)
+        inner = [lp for lp in pmg.loops(wb[0]) if isinstance(lp, ast.For)]
+        for s in wb[0].body:
+            if isinstance(s, ast.Assign) and norm(s.targets[0]) == 'distance[v]' and isinstance(s.value, ast.Name) and inner:
+                nm = s.value.id
+                defs = [x for x in gs if isinstance(x, ast.Assign) and any(isinstance(t, ast.Name) and t.id == nm for t in x.targets)]
+                if len(defs) == 1 and any(defs[0] is x for x in inner[0].body) and defs[0].lineno < wb[0].lineno and gm.match(defs[0].value, 'distance[u] + 1'):
+                    got = sorted(['distance[v] = distance[u] + 1' if norm(x) == norm(s) else norm(x) for x in wb[0].body])
+    okw = len(wb) == 1 and got == sorted(want)
     rep.ob('K.bfs-discovers-white-nodes-once', g, wb[0].test if wb else 'if color[v] == white', okw,
            'a node is given distance(u)+1, coloured and queued exactly when first discovered', line=g.node.lineno)
     pop = [s for s in gs if gm.match(s, 'Q = Q[1:]')]
